@@ -13,9 +13,8 @@ RULE = ("exact regime: integer-valued images, integer (int dtypes) or quarter-in
         "laplacian_2D are compared with a chain of convolve1d calls using the documented weights (tolerance 1e-9, support). "
         "Non-trivial: kernel has >=2 non-zero taps and the image is not constant")
 NOT_PROVED = ["floating-point rounding of non-dyadic weights (Gaussian) is outside the model: compared with tolerance only",
-              "the transposition/reshape glue of convolve1d (numpy) is tied by correspondence only",
-              "row_fast = row_spec (the native 1-D fast path loops) is tied by correspondence of the executable model, "
-              "not yet by a Coq theorem"]
+              "the transposition/reshape glue of convolve1d (numpy) is tied by correspondence only; the native 1-D fast path loops "
+              "(interior + border over an uninitialised row) are proved equal to the defining sum (row_fast_is_row_spec)"]
 BUDGET_S = {"quick": 100, "thorough": 900}
 DTYPES = ["uint8", "int8", "uint16", "int16", "uint32", "int32", "uint64", "int64", "float32", "float64"]
 
